@@ -84,7 +84,9 @@ func (t *tracer) CaptureFault(env *vm.EVM, pc uint64, op vm.OpCode, gas, cost ui
 	return nil
 }
 
-func (t *tracer) CaptureEnd(output []byte, gasUsed uint64, d time.Duration, err error) error { return nil }
+func (t *tracer) CaptureEnd(output []byte, gasUsed uint64, d time.Duration, err error) error {
+	return nil
+}
 
 type instr struct {
 	op  string // abstract opcode
